@@ -569,11 +569,14 @@ def run(ctx):
         # order 0 of Bernoulli: which disjunct of C08_bernoulli_moment0_decided holds
         r0 = lib.coq_run_many(ctx, [("c08_m0_refuted", MOMENT0_REFUTED), ("c08_m0_repaired", MOMENT0_REPAIRED)], timeout=300)
         refuted, repaired = r0["c08_m0_refuted"][0], r0["c08_m0_repaired"][0]
-        cov["obligations"] += 1
+        m0_timeout = any(o.startswith("TIMEOUT") for _, o in r0.values())
+        cov["obligations"] += 0 if m0_timeout else 1
         real_defect = any(v == "bernoulli" and F(r["moments"].get("0", "1")) != 1
                           for (v, _, _), r in zip(grid, results) if "error" not in r and v == "bernoulli"
                           and not isinstance(r["moments"].get("0"), dict))
-        if refuted != repaired and refuted == real_defect:
+        if m0_timeout:
+            cov["unvalidated_instances"] = cov.get("unvalidated_instances", 0) + 1
+        elif refuted != repaired and refuted == real_defect:
             cov["discharged"] += 1
             cov["bernoulli_moment0"] = ("C08_bernoulli_moment0_refuted proved about the generated definition (defect present; "
                                         "exhibited on the real code)") if refuted else \
